@@ -37,14 +37,13 @@ ResultsDiag(exp, out) ==
     (IF out.results[i].fee # exp.results[i].fee THEN {"fee"} ELSE {})
     : i \in DOMAIN exp.results }
 
-(* C07: no included transaction is charged more than its signed maximum fee.
-   Known finding KF_C07: nothing on the verification path compares the charged fee with Base.MaxFee. *)
-OverMax(out, txs) == {i \in DOMAIN out.results : out.results[i].fee > txs[i].maxfee}
+(* C07: no included transaction is charged more than its signed maximum fee. *)
+ExpOverMax(exp, txs) == {i \in DOMAIN exp.results : exp.results[i].fee > txs[i].maxfee}
 
-BlockDiag(exp, out, txs) ==
+BlockDiag(exp, out, txs, overmax, allowed) ==
   IF out.err # "" THEN
-       (IF exp.valid THEN {"valid-block-rejected"} ELSE {}) \cup
-       (IF ~exp.valid /\ out.err \notin exp.allowed THEN {"error-class"} ELSE {})
+       (IF exp.valid /\ overmax = {} THEN {"valid-block-rejected"} ELSE {}) \cup
+       (IF ~exp.valid /\ out.err \notin allowed THEN {"error-class"} ELSE {})
   ELSE (IF ~exp.valid THEN {"invalid-block-accepted"} ELSE
           ResultsDiag(exp, out) \cup
           (IF ~SameMap(out.post.kv, exp.st.kv) THEN {"post-state"} ELSE {}) \cup
@@ -54,14 +53,28 @@ BlockDiag(exp, out, txs) ==
           (IF out.post.height # exp.st.height \/ out.post.timestamp # exp.st.timestamp THEN {"metadata"} ELSE {}) \cup
           (IF \E i \in Dims : exp.consumed[i] > R.maxunits[i] THEN {"over-block-max"} ELSE {}))
 
+(* Known findings (see KNOWN_FINDINGS.jsonl).  Each predicate delimits exactly the deviating region; the line is
+   then explained by what the code does and validation continues, so any other deviation is still rejected.
+   KF_C11: a child of the genesis block is checked against the genesis STATE timestamp (0) instead of the genesis
+           header timestamp, so only the two timestamp-gap verdicts may differ, and only when the parent is genesis.
+   KF_C07: nothing on the verification path compares the charged fee with Base.MaxFee. *)
+KF_C11_genesis(prop, coded, out) ==
+  /\ T.hdr.pgenesis /\ out.err = ""
+  /\ prop.classes # {} /\ prop.classes \subseteq {"block-too-early", "block-too-early-empty"}
+  /\ coded.valid
+
 TBlock ==
   /\ Ev("block")
-  /\ LET exp == RunBlock(st, T.hdr, T.txs, T.prices, R)
-         d0  == BlockDiag(exp, T.out, T.txs)
-         om  == IF T.out.err = "" THEN OverMax(T.out, T.txs) ELSE {}
-         d1  == IF T.out.err = "" /\ T.bid = lastBid /\ T.out.root # lastRoot THEN {"root-differs-between-runs"} ELSE {}
+  /\ LET prop  == RunBlock(st, T.hdr, T.txs, T.prices, R)
+         coded == RunBlockAsCoded(st, T.hdr, T.txs, T.prices, R)
+         kf11  == KF_C11_genesis(prop, coded, T.out)
+         exp   == IF kf11 THEN coded ELSE prop
+         om    == IF exp.valid THEN ExpOverMax(exp, T.txs) ELSE {}
+         d0    == BlockDiag(exp, T.out, T.txs, om, prop.allowed \cup coded.allowed)
+         d1    == IF T.out.err = "" /\ T.bid = lastBid /\ T.out.root # lastRoot THEN {"root-differs-between-runs"} ELSE {}
      IN /\ diag' = d0 \cup d1
-        /\ (om # {} => PrintT(<<"KF_HIT", "C07-fee-above-maxfee-at-verify", l>>))
+        /\ (kf11 => PrintT(<<"KF_HIT", "C11-genesis-child-timestamp-below-genesis-header", l>>))
+        /\ ((om # {} /\ T.out.err = "") => PrintT(<<"KF_HIT", "C07-fee-above-maxfee-at-verify", l>>))
         /\ st' = IF T.advance /\ T.out.err = "" THEN exp.st ELSE st
         /\ lastBid' = IF T.out.err = "" THEN T.bid ELSE lastBid
         /\ lastRoot' = IF T.out.err = "" THEN T.out.root ELSE lastRoot
